@@ -85,7 +85,8 @@ type Link struct {
 }
 
 type Item struct {
-	Kind string // "if", "switch", "tswitch", "lit"
+	Kind string // "if", "switch", "tswitch", "lit", "tree"
+	Tree *Tree
 	Pos  int
 	// if
 	Links []Link
@@ -160,6 +161,9 @@ func (c *Conv) File(f *fw.File) *AFile {
 			}
 			if d.Body != nil {
 				ad.Items = c.items(d, info, off, true)
+				for _, t := range typeTrees(d, info, off) {
+					ad.Items = append(ad.Items, Item{Kind: "tree", Pos: t.Pos, Tree: t})
+				}
 				ad.Comments = c.comments(f, d, off)
 			}
 			out.Decls = append(out.Decls, ad)
@@ -173,12 +177,22 @@ func (c *Conv) File(f *fw.File) *AFile {
 					}
 					ad.Names = append(ad.Names, ts.Name.Name)
 				}
-				if its := c.items(d, info, off, false); len(its) > 0 {
-					out.Unsupported["mapKey"] = "map literal inside a type declaration (DType carries no items)"
-				}
 				out.Decls = append(out.Decls, ad)
+				// what an expression / type-expression walker meets inside the type declaration travels in a DOther at the
+				// same position (DType itself carries the names only)
+				its := c.items(d, info, off, false)
+				for _, t := range typeTrees(d, info, off) {
+					its = append(its, Item{Kind: "tree", Pos: t.Pos, Tree: t})
+				}
+				if len(its) > 0 {
+					out.Decls = append(out.Decls, Decl{Kind: "other", Pos: off(d.Pos()), End: off(d.End()), Items: its})
+				}
 			} else {
-				out.Decls = append(out.Decls, Decl{Kind: "other", Pos: off(d.Pos()), End: off(d.End()), Items: c.items(d, info, off, false)})
+				its := c.items(d, info, off, false)
+				for _, t := range typeTrees(d, info, off) {
+					its = append(its, Item{Kind: "tree", Pos: t.Pos, Tree: t})
+				}
+				out.Decls = append(out.Decls, Decl{Kind: "other", Pos: off(d.Pos()), End: off(d.End()), Items: its})
 			}
 		default:
 			out.Decls = append(out.Decls, Decl{Kind: "other", Pos: off(d.Pos()), End: off(d.End())})
@@ -561,6 +575,8 @@ func (it Item) Coq() string {
 			hs = append(hs, coqfmt.Bool(h))
 		}
 		return "STypeSwitch " + n(it.Pos) + " " + coqfmt.Bool(it.Guarded) + " " + coqfmt.List(hs)
+	case "tree":
+		return "SExpr " + it.Tree.coq()
 	case "lit":
 		ws := "None"
 		if it.WS != nil {
